@@ -135,10 +135,8 @@ theorem recordEnd_ok {n : Nat} {r : Record} (h : WF n r) : ∃ e, recordEnd r = 
 
 theorem recordBin_ok {n : Nat} {r : Record} (h : WF n r) : ∃ bin, recordBin r = .ok bin := by
   unfold recordBin
-  split
-  · exact ⟨4680, rfl⟩
-  · obtain ⟨e, he⟩ := recordEnd_ok h
-    rw [he]; exact ⟨_, rfl⟩
+  obtain ⟨e, he⟩ := recordEnd_ok h
+  rw [he]; exact ⟨_, rfl⟩
 
 /-- the writer accepts every well-formed record and writes the length prefix followed by the fields -/
 theorem encodeRecord_ok {n : Nat} {r : Record} (h : WF n r) :
